@@ -13,7 +13,7 @@ import AgeModel.GoSem
 import AgeModel.Recipients
 import AgeModel.File
 import AgeModel.Extracted.Funcs
-import Proofs.GoTieEncrypt
+import Proofs.GoTieTape
 import Proofs.GoTieUnwrap
 import Proofs.GoTieSsh
 namespace AgeModel
